@@ -673,9 +673,20 @@ func (r *runner) checkStableFractions(s *Search, res *simenv.SearchRes, before, 
 	if len(res.Hits) > 0 {
 		last = mid(res.Hits[len(res.Hits)-1].ID)
 	}
+	// only documents of acknowledged bulks are promised to stay in their fraction: an unacknowledged
+	// one that was visible after a process exit may vanish from the (then active) fraction with a
+	// later power loss, and the fraction is sealed without it
+	ackedDoc := map[model.ID]bool{}
+	for _, bn := range r.bulkOrder {
+		if b := r.bulks[bn]; b.status == "acked" {
+			for _, d := range b.docs {
+				ackedDoc[d.ID()] = true
+			}
+		}
+	}
 	checked := false
 	for id, fname := range r.fracOf {
-		if !stable[fname] || !still[fname] || listed[id] {
+		if !stable[fname] || !still[fname] || listed[id] || !ackedDoc[id] {
 			continue
 		}
 		d := r.issued[id]
